@@ -54,7 +54,8 @@ def frame(body, framing, layout, trailers=b"", ext=False, method=b"POST"):
         out.append(b"%x" % sz + (b";e=%d" % i if ext and i % 2 else b"") + b"\r\n" + body[p:p + sz] + b"\r\n")
         p += sz
     assert p == len(body), (p, len(body))
-    out.append(b"0\r\n" + trailers + b"\r\n")
+    # (the last chunk may carry an extension too)
+    out.append((b"0;last=1\r\n" if ext else b"0\r\n") + trailers + b"\r\n")
     return b"".join(out)
 
 
